@@ -1,0 +1,10 @@
+//go:build verif
+
+package composer
+
+import (
+	"k8s.io/apimachinery/pkg/runtime"
+	"sigs.k8s.io/controller-runtime/pkg/client"
+)
+
+func NewGeneralForVerif(s *runtime.Scheme, c client.Client) *General { return &General{scheme: s, Client: c} }
